@@ -7,25 +7,35 @@ ID = "C02"
 AREA = "c02"
 LEAN_PROPS = "Litep2pVerif.Props.C02"
 THEOREMS = ["term_model_laws", "real_params_ok", "write_total_old_constant_witness", "write_total", "write_stream_eq",
-            "read_no_oob", "read_stream_eq_partial", "tamper_detected_partial", "tamper_instances",
-            "write_read_roundtrip_partial"]
+            "read_no_oob", "read_stream_eq", "tamper_detected", "tamper_cases", "tamper_instances",
+            "write_read_roundtrip"]
 CONSTS = ["MAX_NOISE_MSG_LEN", "NOISE_EXTRA_ENCRYPT_SPACE", "MAX_READ_AHEAD_FACTOR", "MAX_WRITE_BUFFER_SIZE",
           "SNOW_MAXMSGLEN", "SNOW_TAGLEN"]
 MANIFEST = {
     "text": "Lean 4 theorems about an executable operational model of NoiseSocket::poll_read/poll_write/poll_flush "
             "(all fields, the three read states, reset_read_state with its panic, the auxiliary-tail computation, "
             "chunking and the space test of the writer, an abstract AEAD with explicit nonce counters and snow's size "
-            "checks): read_stream_eq / read_no_oob by an invariant preserved by every loop iteration for every carrier "
-            "chunking, Pending placement, reader buffer length and F >= 1; write_total with the side condition "
-            "MAX_FRAME_LEN + 16 <= snow MAXMSGLEN decided on the regenerated constants; write_read_roundtrip; "
-            "tamper_detected for arbitrary attacker streams under the ideal-AEAD law. Plus a seeded correspondence run of "
-            "a real NoiseSocket pair (real handshake, scripted in-memory carrier with chunking, Pending, faults and "
-            "frame-level tampering) against the model, and a property-level oracle.",
+            "checks), all at full strength: read_no_oob and the prefix direction by a buffer invariant preserved by "
+            "every loop iteration for every carrier chunking, Pending placement, reader buffer length and F >= 1; "
+            "read_stream_eq = prefix + completeness (alignment invariant: the frame cursor sits on the wire offset of "
+            "the frame whose nonce comes next; liveness by a decreasing measure: once everything is delivered by a "
+            "carrier that never fails, plen + #script-entries polls with non-empty buffers return ALL the plaintext, "
+            "and the only possible error is UnexpectedEof after close and after the last byte); tamper_detected: for "
+            "every stream = j intact frames ++ anything that does not begin with the intact frame j (modification, "
+            "truncation, replay, drop, reordering, insertion, appended bytes; tamper_cases), under the ideal-AEAD law, "
+            "the run is exactly the plaintext of the j intact frames followed by an error (InvalidData/UnexpectedEof) "
+            "once the carrier has delivered the stream and closed; write_total with the side condition "
+            "MAX_FRAME_LEN + 16 <= snow MAXMSGLEN decided on the regenerated constants; write_read_roundtrip: after a "
+            "successful poll_flush and complete delivery the reader obtains exactly the wpos bytes accepted by "
+            "poll_write. Plus a seeded correspondence run of a real NoiseSocket pair (real handshake, scripted "
+            "in-memory carrier with chunking, Pending, faults and frame-level tampering, re-polls after read errors) "
+            "against the model, and a property-level oracle.",
     "note": "Trusted: Lean kernel; axioms propext/Classical.choice/Quot.sound; the hand-written model and its tie "
             "(sampled differential runs through adapter src/verif/c02.rs); ChaCha20-Poly1305/snow idealised as an AEAD "
-            "with laws (hypotheses, satisfied by the free term model); polls after an I/O error are outside the model "
-            "(fused).",
-    "technique": "Lean 4 proof (state-machine invariant over all schedules) + model/implementation correspondence check",
+            "with laws (hypotheses, satisfied by the free term model); the theorems speak about a run up to its first "
+            "read error (what poll_read does when polled again after an error is modelled and compared with the "
+            "implementation, not part of a theorem); writes after a write error are outside the model (fused).",
+    "technique": "Lean 4 proof (state-machine invariants + termination measure over all schedules) + model/implementation correspondence check",
     "design_ref": "DESIGN.md §7 C02, §8 (a)",
 }
 _NOISE = "src/crypto/noise/mod.rs"
@@ -54,7 +64,8 @@ TRUSTED_BASE = ["Lean 4.33 kernel", "axioms: propext, Classical.choice, Quot.sou
                 "theorems, proved for the free term model)",
                 "snow's size checks (MAXMSGLEN, TAGLEN, output space) transcribed from snow 0.9.6 transportstate.rs/cipherstate.rs"]
 ASSUMPTIONS = ["F >= 1 and W >= 1 (F = 0 fails every read with UnexpectedEof, W = 0 never accepts a write)",
-               "callers stop polling a direction after it returned an I/O error (the adapter answers `fused`)",
+               "callers stop writing after a write/flush error (the adapter answers `fused`); the reader may be polled again "
+               "after an error (modelled, compared, checked by the oracle: never a panic, never altered plaintext)",
                "the inner AsyncRead never reports more bytes than the buffer it was given"]
 KEEP_PREFIX = 1
 
@@ -140,7 +151,7 @@ def gen_case(rng, kind):
             else:
                 ops.append(f"tamper {t} {i}")
             tampered = True
-            frames += 1
+            frames += 3
         r = rng.random()
         if r < 0.35:
             ops.append("carrier deliver all")
@@ -205,6 +216,15 @@ def corpus():
         ["cfg 1 1", "write 200000", "flush", "write 200000", "flush", "carrier deliver all", "carrier close"] + ["read 65536"] * 9,
         ["cfg 2 1", "write 30", "write 40", "flush", "tamper swap 0", "carrier deliver all", "read 100", "read 100"],
         ["cfg 1 2", "write 5", "flush", "tamper dup 0", "carrier deliver all", "carrier close", "read 100", "read 100", "read 100"],
+        # polling again after a decryption error (panicked with "`frame_size` to exist" before the fix): big and small buffer
+        ["cfg 1 1", "write 5", "flush", "tamper flip 0 5 1", "carrier deliver all", "read 100", "read 100", "read 1", "read 100"],
+        ["cfg 5 2", "write 40", "flush", "tamper flip 0 7 1", "carrier deliver all", "read 3", "read 3", "read 100", "read 3",
+         "carrier close", "read 100"],
+        # polling again after an invalid frame size (length prefix flipped to a value <= 16), after EOF and after a carrier error
+        ["cfg 2 1", "write 3", "write 9", "flush", "tamper flip 0 1 16", "carrier deliver all", "read 64", "read 64", "read 64",
+         "carrier close", "read 64", "read 64"],
+        ["cfg 1 1", "write 7", "flush", "carrier rscript x e", "carrier deliver all", "read 4", "read 4", "read 4", "read 4",
+         "carrier close", "read 4", "read 4", "read 4"],
     ]
 
 
@@ -241,8 +261,11 @@ def mutate_case(rng, case, n):
 def oracle(case, out):
     """The property on the implementation's observations (no reference to the Lean model):
     reader output is exactly the writer's stream in order; nothing at or beyond a tampered frame is
-    ever returned; no error without a cause; an error once the (closed, drained) carrier is exhausted;
-    writes of every size are accepted."""
+    ever returned before the reader has been told (error); no error without a cause; an error once the
+    (closed, drained) carrier is exhausted; writes of every size are accepted; polling the reader
+    again after an error never panics and never yields bytes that are not the writer's stream at
+    that position (after an `invalid-data` error the reader may resynchronise on genuine later
+    frames -- the caller has been warned -- so the tamper limit is only enforced up to that error)."""
     bad = []
 
     def v(kind, msg, i):
@@ -258,6 +281,8 @@ def oracle(case, out):
     delivered_all = True  # everything on the wire is in the reader's inbox
     scripts_clear = True
     partial_cut = False   # the carrier was closed while data was still in flight
+    warned = False        # the reader has already returned `invalid-data`
+    hard, flips = {}, {}  # tampered frames by plaintext start: hard limit / accumulated flip masks by byte offset
     for i, op in enumerate(case):
         if i >= len(out):
             break
@@ -277,7 +302,8 @@ def oracle(case, out):
             F, W = int(t[1]), int(t[2])
             wpos = rtotal = 0
             limit = None
-            wfault = rfault_e = rfault_x = closed = partial_cut = False
+            wfault = rfault_e = rfault_x = closed = partial_cut = warned = False
+            hard, flips = {}, {}
             flushed = delivered_all = scripts_clear = True
         elif t[0] == "write":
             n = int(t[1])
@@ -320,8 +346,15 @@ def oracle(case, out):
             if o.startswith("ok"):
                 # `ok @<plaintext start of the frame> +<its plaintext length>`
                 p, l = int(o.split()[1][1:]), int(o.split()[2][1:])
-                lim = p + l if t[1] == "dup" else p
-                limit = lim if limit is None else min(limit, lim)
+                if t[1] == "flip" and len(t) == 5 and p not in hard:
+                    # two flips of the same byte with the same mask restore the frame (shrunk / mutated cases)
+                    acc = flips.setdefault(p, {})
+                    key, m = int(t[3]) % (l + 18), 1 + (max(int(t[4]), 1) - 1) % 255
+                    acc[key] = acc.get(key, 0) ^ m
+                else:
+                    hard[p] = min(hard.get(p, p + l), p + l if t[1] == "dup" else p)
+                lims = list(hard.values()) + [q for q, acc in flips.items() if q not in hard and any(acc.values())]
+                limit = min(lims) if lims else None
         elif t[0] == "read":
             k = int(t[1])
             if o.startswith("ok"):
@@ -337,7 +370,7 @@ def oracle(case, out):
                 rtotal += n
                 if rtotal > wpos:
                     v("stream-excess", f"{rtotal} bytes read, only {wpos} written", i)
-                if limit is not None and rtotal > limit:
+                if limit is not None and rtotal > limit and not warned:
                     v("tamper-accepted", f"bytes up to position {rtotal} returned although the frame at {limit} was tampered with", i)
                 if n == 0 and k > 0:
                     v("read-zero", "read returned Ok(0) for a non-empty buffer", i)
@@ -346,6 +379,7 @@ def oracle(case, out):
                     v("read-stuck", "read is Pending although the carrier is closed and drained", i)
             elif o.startswith("err"):
                 cls = o.split()[1]
+                warned = warned or cls == "invalid-data"
                 cause = {"eof": closed or rfault_e or F == 0, "reset": rfault_x,
                          "invalid-data": limit is not None, "permission-denied": False}.get(cls, False)
                 if not cause:
